@@ -541,6 +541,12 @@ func (a *Analyzer) checkFunctions(clause ast.Clause) error {
 		if err := checkKeyValueArgs(arg); err != nil {
 			return err
 		}
+		// The head of a rule is evaluated like any other expression.
+		if len(clause.Premises) > 0 {
+			if err := a.checkExprArity(arg); err != nil {
+				return err
+			}
+		}
 	}
 	for _, p := range clause.Premises {
 		if tl, ok := p.(ast.TemporalLiteral); ok {
